@@ -16,7 +16,7 @@ PUMPS = [{'power': 0.224403, 'frequency': 205e12, 'propagation_direction': 'coun
 CHAINS = [
     'F80', 'F0.05', 'F10', 'F120', 'F200', 'F460', 'F1500', 'F80_F60', 'F40_U_F30', 'U_F60', 'F60_U', 'F30_U_U_F20',
     'E_F80', 'F80_E', 'F80_E_F70', 'Efull_F100_Efull', 'Etype_F100_Egain', 'Evoa_F90_Edp', 'F100lumped', 'F200lumped',
-    'F200att', 'F80perfreq', 'R80_E', 'F80_R80', 'F100_F100_F100', 'Evoa_F100', 'Evoa_F70_F70',
+    'F200att', 'F80perfreq', 'R80_E', 'F80_R80', 'F100_F100_F100', 'Evoa_F100', 'Evoa_F70_F70', 'F80_Evoa',
 ]
 
 
@@ -53,6 +53,8 @@ def chain(kind, amp_low='std_low_gain', amp_med='std_medium_gain'):
         # operator VOA at the output of an otherwise automatic booster, followed only by automatic amplifiers
         'Evoa_F100': [e(None, out_voa=2.0), f(100)],
         'Evoa_F70_F70': [e(None, out_voa=3.5), f(70), f(70)],
+        # the last amplifier of the link (the preamplifier slot) carries an operator VOA
+        'F80_Evoa': [f(80), e(None, out_voa=1.5)],
     }
     return copy.deepcopy(table[kind])
 
